@@ -7,15 +7,22 @@ if [ -n "$(git -C /repo status --porcelain --untracked-files=no)" ]; then echo "
 trap 'git -C /repo checkout -- . 2>/dev/null' EXIT
 export VERIF_SCALE=${VERIF_SCALE:-0.2}
 export VERIF_REPLAY_DIR=/tmp/sens-replays.$$
-pats=("$@"); [ ${#pats[@]} -eq 0 ] && pats=(mutants/*.patch)
+pats=("$@"); [ ${#pats[@]} -eq 0 ] && pats=(mutants/*.patch mutants/benign/*.patch)
 ok=0; miss=0
 for p in "${pats[@]}"; do
   prop=$(sed -n 's/^# property: //p' "$p" | head -1)
   if ! git -C /repo apply "$PWD/$p" 2>/dev/null && ! git -C /repo apply "$p" 2>/dev/null; then echo "SKIP   $p (does not apply)"; continue; fi
   out=$(./check "$prop" quick 2>&1); rc=$?
   git -C /repo checkout -- .
-  if [ $rc -eq 1 ]; then ok=$((ok+1)); echo "CAUGHT $p [$prop] $(echo "$out" | grep -m1 '^violation' | cut -c1-150)";
-  else miss=$((miss+1)); echo "MISSED $p [$prop] rc=$rc $(echo "$out" | tail -1 | cut -c1-150)"; fi
+  case "$p" in
+    *benign*)
+      # a change under which the property still holds: the check must stay quiet
+      if [ $rc -eq 0 ]; then ok=$((ok+1)); echo "QUIET  $p [$prop] (benign change, no alarm)";
+      else miss=$((miss+1)); echo "FALSE-ALARM $p [$prop] rc=$rc $(echo "$out" | grep -m1 '^violation' | cut -c1-150)"; fi ;;
+    *)
+      if [ $rc -eq 1 ]; then ok=$((ok+1)); echo "CAUGHT $p [$prop] $(echo "$out" | grep -m1 '^violation' | cut -c1-150)";
+      else miss=$((miss+1)); echo "MISSED $p [$prop] rc=$rc $(echo "$out" | tail -1 | cut -c1-150)"; fi ;;
+  esac
 done
 rm -rf "$VERIF_REPLAY_DIR"
 echo "caught=$ok missed=$miss"
